@@ -29,14 +29,20 @@ Definition emb_stats (s : lstats) : pv :=
   obj (memo "converted_max" (l_cmax s) ++ memo "converted_min" (l_cmin s) ++
        [("null_count", opt_int (l_null_count s)); ("max", l_max s); ("max_value", l_max_value s);
         ("min", l_min s); ("min_value", l_min_value s)])%list.
-Definition emb_col (c : lcolumn) : pv :=
-  obj [("meta_data", obj [("path_in_schema", PList [PStr (l_name c)]); ("num_values", PInt (l_num_values c));
+(* a partition directory pair as the path regex delivers it *)
+Definition emb_pair (p : string * string) : pv := PList [PStr (fst p); PStr (snd p)].
+(* file_path of a column chunk: None, or (opaque to the loop: only handed to the path regex) the pairs it parses into *)
+Definition emb_fp (parts : option (list (string * string))) : pv :=
+  match parts with Some pairs => PList (map emb_pair pairs) | None => PNone end.
+Definition emb_col (fp : pv) (c : lcolumn) : pv :=
+  obj [("file_path", fp); ("meta_data", obj [("path_in_schema", PList [PStr (l_name c)]); ("num_values", PInt (l_num_values c));
                           ("type", l_type c);
                           ("statistics", match l_stats c with Some s => emb_stats s | None => PNone end)])].
 Definition emb_rg {R} (rg : lrowgroup R) : pv :=
-  obj [("num_rows", PInt (lg_num_rows rg)); ("columns", PList (map emb_col (lg_columns rg)))].
+  obj [("num_rows", PInt (lg_num_rows rg)); ("columns", PList (map (emb_col (emb_fp (lg_parts rg))) (lg_columns rg)))].
 Definition emb_cond (f : cond) : pv := PList [PStr (cname f); PStr (cop f); cval f].
 Definition emb_tail (f : cond) : pv := PList [PStr (cop f); cval f].
+Definition emb_group (g : list cond) : pv := PList (map emb_cond g).
 
 (* ---- abstraction: what the loop hands to filter_val for a chunk ---- *)
 Section Abs.
